@@ -49,6 +49,7 @@ def run(ctx):
     R.explanation = ("Decides writer/reader agreement of the JSON key and tag tables for dtype_t, its enum/struct/tuple/union parts, argMetadata_t, kernelMetadata_t and the build file's metadata keys, "
                      "completeness of the fields dtype_t::fromJson assigns per tag, and declaration-order emission of struct/union fields.")
     R.rule("C11-R1", "writer/reader JSON key and tag tables agree", floor=30)
+    R.rule("C11-R6", "matches(other): what is looked up under the other operand's field name is looked up in the other operand's table", floor=2)
     R.rule("C11-R2", "every tag branch of dtype_t::fromJson assigns the byte size", floor=6)
     R.rule("C11-R3", "struct/union fields are written in declaration order", floor=2)
     R.rule("C11-R5", "a dtype_t method that resolves its reference (self()) reads every data field through the resolved object", floor=15)
@@ -197,6 +198,38 @@ def run(ctx):
         R.ob("C11-R1", pth is None, f.q, "tag:written on every path", f.site(stmt),
              "no exit without j[\"type\"]" if pth is None else
              "a path leaves %s::toJson without writing its kind tag (the value is written as something else): fromJson restores another kind - tuple(T, 1) comes back as T" % cls, path=pth)
+
+    # ---- R6: structural equality of composites (what a user compares a round-tripped dtype with) -------------------------------------------
+    for cls in ("dtypeStruct_t", "dtypeUnion_t"):
+        ms = [x for x in prog.fns(D + cls + "::matches")]
+        if len(ms) != 1:
+            raise AnalysisBroken("%s::matches vanished" % cls)
+        f = ms[0]
+        oth = f.d["params"][0]["d"]
+        defs = f.local_defs()
+        def rooted_in_other(e, depth=0):
+            """does the expression read from the `other` parameter (through local definitions)?"""
+            for x in walk(e):
+                if x["k"] == "DeclRefExpr" and x.get("d") == oth:
+                    return True
+                if x["k"] == "DeclRefExpr" and x.get("loc") and depth < 3:
+                    for dn in defs.get(x["d"], []):
+                        if dn["k"] == "VarDecl" and kids(dn) and rooted_in_other(kids(dn)[0], depth + 1):
+                            return True
+            return False
+        finds = [c for c in f.walk() if c["k"] == "CXXMemberCallExpr" and callee(c).split("::")[-1] in ("find", "at", "operator[]") and call_object(c) is not None and "fieldTypes" in render(call_object(c), False)]
+        n_o = 0
+        for c in finds:
+            key_other = rooted_in_other(call_args(c)[0]) if call_args(c) else False
+            tab_other = rooted_in_other(call_object(c))
+            if key_other:
+                n_o += 1
+            ok = key_other == tab_other
+            R.ob("C11-R6", ok, f.q, "lookup:%s" % noid(render(c, False))[:70], f.site(c),
+                 "name and table belong to the same operand" if ok else
+                 "a field name of one operand is looked up in the field table of the other: both field types come from the same struct, so dtypes with equal field names and different field types match")
+        if n_o < 1:
+            R.ob("C11-R6", False, f.q, "lookup:the other operand's field types are compared", "%s:%d" % (f.relfile, f.d["line"]), "no lookup is made with a field name of `other`")
 
     # ---- R3 -----------------------------------------------------------------------
     for cls in ("dtypeStruct_t", "dtypeUnion_t"):
